@@ -307,6 +307,21 @@ def r3_column_cursor(ctx):
     cnt = [i for i in raising_ifs(b.node) if isinstance(i.test, ast.Compare) and isinstance(i.test.ops[0], ast.NotEq) and {norm(expand(b, i.test.left, depth=1)), norm(expand(b, i.test.comparators[0], depth=1))} == {"counter['_']", "len(filtered_data.columns)"}]
     ok = len(cnt) == 1 and gb.node_of(cnt[0]) in gb.dominators("n").get(gb.exit_return, set())
     ctx.check(ok, b.qual + "#column-count", "column count != number of '_' placeholders raises before the mode exists" if ok else "custom mode no longer rejects a table whose column count differs from the number of placeholders", where=b, node=cnt[0] if cnt else b.node)
+    # "one run per table row": the table handed to the mode is the loaded file with a COLUMN selection only - every row,
+    # in file order (no drop_duplicates / dropna / sort / head / query / row slicing)
+    cons_ = [c_ for c_ in calls_in(b.node) if call_name(c_) == "cls" and kw(c_, "custom_data") is not None]
+    if cons_:
+        tbl = expand(b, kw(cons_[0], "custom_data"))
+        chain, steps_ok, bad_step = tbl, True, None
+        while not (isinstance(chain, ast.Call) and call_name(chain).split(".")[-1] == "load_table"):
+            if isinstance(chain, ast.Subscript) and isinstance(chain.value, ast.Attribute) and chain.value.attr == "loc" and isinstance(chain.slice, ast.Tuple) and len(chain.slice.elts) == 2 and isinstance(chain.slice.elts[0], ast.Slice) and chain.slice.elts[0].lower is None and chain.slice.elts[0].upper is None and chain.slice.elts[0].step is None:
+                chain = chain.value.value
+            elif isinstance(chain, ast.Call) and isinstance(chain.func, ast.Attribute) and chain.func.attr in ("copy", "reset_index") and (chain.func.attr == "copy" or any(k.arg == "drop" for k in chain.keywords)):
+                chain = chain.func.value
+            else:
+                steps_ok, bad_step = False, chain
+                break
+        ctx.check(steps_ok, b.qual + "#all-rows", "the table keeps every row of the file, in file order (columns selected only)" if steps_ok else f"the custom table is `{norm(bad_step)[:70]}`: rows of the file are dropped / merged / reordered, so not every row becomes a run and run ids no longer match row numbers", where=b, node=cons_[0])
     cdef = local_defs(b, "counter")
     ok = len(cdef) == 1 and "if step.enabled" in norm(expand(b, cdef[0][1])) and ".values" in norm(expand(b, cdef[0][1]))
     ctx.check(ok, b.qual + "#count-enabled", "placeholders counted over the enabled steps" if ok else "placeholders are not counted over the enabled steps", where=b, node=cdef[0][0] if cdef else b.node)
